@@ -111,3 +111,23 @@ impl BindingMapKeys {
         Ok(())
     }
 }
+
+/// Verification hook: drive a collector with a sequence of operations
+/// (`a<field>` = add_field, `d<field>` = disable_field, `*` = disable_all);
+/// returns the result of every add and the final `list_fields()`.
+#[cfg(glass_easel_verif)]
+pub fn verif_run_collector(ops: &[&str]) -> (Vec<Option<usize>>, Vec<(String, usize)>) {
+    let mut bmc = BindingMapCollector::new();
+    let mut adds = vec![];
+    for op in ops {
+        if *op == "*" {
+            bmc.disable_all();
+        } else if let Some(f) = op.strip_prefix('a') {
+            adds.push(bmc.add_field(f));
+        } else if let Some(f) = op.strip_prefix('d') {
+            bmc.disable_field(f);
+        }
+    }
+    let fields = bmc.list_fields().map(|(k, n)| (k.to_string(), n)).collect();
+    (adds, fields)
+}
